@@ -19,8 +19,21 @@ def build(ctx, mode="shipped", defines=()):
 def generate(ctx, exe, profile, ntables, npoints, maxcoef, tag=""):
     base = os.path.join(ctx.scratch, profile + tag)
     cases, impl, stats = base + ".in", base + ".impl", base + ".stats"
-    rc, out, err = ctx.run([exe, profile, str(ntables), str(npoints), cases, impl, stats, str(maxcoef)], timeout=1800)
+    rc, out, err = ctx.run([exe, profile, str(ntables), str(npoints), cases, impl, stats, str(maxcoef)], timeout=(240 if ctx.tier == "quick" else 2400))
     return rc, out, err, cases, impl, stats
+
+def last_case(cases):
+    """(table dict, last case line) written before the harness stopped: the offending input of a crash or hang"""
+    last_table, last = None, None
+    try:
+        for line in open(cases):
+            if line.startswith("T "): last_table = line
+            elif line[:1] in "SBEGVD": last = line
+    except Exception: pass
+    tbl = None
+    try: tbl = parse_table(last_table.split()) if last_table else None
+    except Exception: pass
+    return tbl, (last or "").strip()[:1500]
 
 def triples(cases, impl, model):
     """yield (line_no, table_words, case_line, impl_line, model_line)"""
